@@ -3,8 +3,8 @@ import itertools
 import random
 
 VARS = {
-    "str": ["S", "A", "B", "C", "D", "E"],
-    "int": [0, 1, 2, 3, 4],
+    "str": ["S", "A", "B", "C", "D", "E", "F", "G", "H", "I", "J", "K", "L", "M"],
+    "int": list(range(16)),
     "clash": ["S", "a", "B", "b", "C"],                       # a variable and a terminal share a value
     "reserved": ["S", "a#CNF#", "C#CNF#1", "S#SUBS#0", "#STARTUNION#"],
     "lower": ["s", "np", "vp", "x1", "y", "zed"],
@@ -65,6 +65,39 @@ def random_case(rng, max_vars=4, max_terms=2, max_prods=7, max_body=4, vcs=None,
         c["declare"] = True            # variables and terminals also passed to the constructor (declared alphabet)
         if rng.random() < 0.3:
             c["prods"] = []             # nothing but the declared alphabet
+    return c
+
+
+def large_case(rng, vcs=("str", "int")):
+    """an ordinary-sized grammar: ten to thirteen variables (two-digit numbers wherever variables are numbered), fifteen
+    to twenty productions, one body of five or six symbols, layered so that most variables generate short words"""
+    nv = rng.randint(10, 13)
+    nt = 2
+    prods = []
+    for v in range(nv - 1, -1, -1):
+        lower = list(range(v + 1, nv))
+        for _ in range(1 if v else 2):
+            r = rng.random()
+            if not lower or r < 0.35:
+                body = [["T", rng.randrange(nt)]]
+            elif r < 0.5:
+                body = [["V", rng.choice(lower)]]
+            elif r < 0.9:
+                body = [["V", rng.choice(lower)] if rng.random() < 0.6 else ["T", rng.randrange(nt)] for _ in range(2)]
+            else:
+                body = []
+            prods.append([v, body])
+    long_body = [["V", rng.randrange(1, nv)] if rng.random() < 0.5 else ["T", rng.randrange(nt)] for _ in range(rng.randint(5, 6))]
+    prods.append([rng.randrange(nv), long_body])
+    if rng.random() < 0.5:
+        prods.append([rng.randrange(nv), [["V", 0]] if rng.random() < 0.3 else [["T", 0], ["V", rng.randrange(nv)]]])
+    uniq = []
+    for p_ in prods:
+        if p_ not in uniq:
+            uniq.append(p_)
+    c = {"nv": nv, "nt": nt, "start": 0, "prods": uniq, "vc": rng.choice(list(vcs)), "large": True}
+    if rng.random() < 0.5:
+        c["shuffle"] = rng.randrange(1 << 30)
     return c
 
 
